@@ -158,7 +158,11 @@ func writeTag(w io.Writer, tag *Tag, timestampDelta uint32) error {
 	offset += 4
 
 	// timestamp
-	timestamp := tag.Timestamp - timestampDelta
+	// 比起始 Tag 更早的 Tag(如音频时间线落后于回放的 GOP)时间戳归零，避免无符号减法回绕成 2^32 毫秒
+	timestamp := uint32(0)
+	if tag.Timestamp > timestampDelta {
+		timestamp = tag.Timestamp - timestampDelta
+	}
 	binary.BigEndian.PutUint32(tagHeader[offset:], (timestamp<<8)|(timestamp>>24))
 	offset += 4
 
